@@ -39,6 +39,9 @@ Finish(c0, e) ==
      /\ verdict' = (IF c # "" THEN "fail" ELSE IF l + 1 > Len(Ev) THEN "ok" ELSE "run")
      /\ (c # "" => Report(FALSE, l, c)) /\ ((c = "" /\ l + 1 > Len(Ev)) => Report(TRUE, l, ""))
 Stutter == UNCHANGED vars
+\* whether the code re-checks the directory after creating it is not part of the property: once the directory
+\* exists the probes of the staleness test may follow directly
+TProbing == Probing \cup {"CheckDir"}
 TStep ==
   /\ verdict = "run" /\ l <= Len(Ev) /\ UNCHANGED tr
   /\ LET e == Ev[l] IN
@@ -47,11 +50,15 @@ TStep ==
      \/ /\ e.ev = "delmod" /\ DeleteMod /\ Finish("", e)
      \/ /\ e.ev = "oldgen" /\ OtherGen(e.newer) /\ Finish("", e)
      \/ /\ e.ev = "begin" /\ Begin(e.p) /\ Finish("", e)
+     \* creation of the module directory: the probe reports what is there; a makedirs that finds the directory made by
+     \* somebody else meanwhile must not make the construction fail (an "exc" event is never enabled)
+     \/ /\ e.ev = "direxists" /\ CheckDir(e.p) /\ Finish(C(e.r = dir, "direxists-r"), e)
+     \/ /\ e.ev = "mkdir" /\ MkDir(e.p) /\ Finish(C(e.created = ~dir, "mkdir-created"), e)
      \* probes: any order, any number; only the reported values are compared
-     \/ /\ e.ev = "statsrc" /\ pc[e.p] \in Probing /\ Stutter /\ Finish(C(e.mt = src.mt, "statsrc-mt"), e)
-     \/ /\ e.ev = "exists" /\ pc[e.p] \in Probing /\ Stutter /\ Finish(C(e.r = (mod.st # "absent"), "exists-r"), e)
-     \/ /\ e.ev = "statmod" /\ pc[e.p] \in Probing /\ Stutter /\ Finish(C(mod.st # "absent" /\ e.mt = mod.mt, "statmod-mt"), e)
-     \/ /\ e.ev = "readsrc" /\ ReadSrcFrom(e.p, Probing \cup {"ReadSrc"}) /\ Finish(C(e.ver = src.ver, "readsrc-ver"), e)
+     \/ /\ e.ev = "statsrc" /\ pc[e.p] \in TProbing /\ Stutter /\ Finish(C(e.mt = src.mt, "statsrc-mt"), e)
+     \/ /\ e.ev = "exists" /\ pc[e.p] \in TProbing /\ Stutter /\ Finish(C(e.r = (mod.st # "absent"), "exists-r"), e)
+     \/ /\ e.ev = "statmod" /\ pc[e.p] \in TProbing /\ Stutter /\ Finish(C(mod.st # "absent" /\ e.mt = mod.mt, "statmod-mt"), e)
+     \/ /\ e.ev = "readsrc" /\ ReadSrcFrom(e.p, TProbing \cup {"ReadSrc"}) /\ Finish(C(e.ver = src.ver, "readsrc-ver"), e)
      \* creation of the temp file (tempfile.mkstemp, os.open or open(.., "w") below the module directory): it must
      \* be a file of its own in the module directory -- not the module path, and not a name another process uses
      \/ /\ e.ev = "mkstemp" /\ Mkstemp(e.p)
@@ -67,7 +74,7 @@ TStep ==
      \/ /\ e.ev = "move" /\ e.to_modpath /\ ~e.src_complete /\ pc[e.p] \in {"Mkstemp", "Write", "Close", "Move"} /\ tmp[e.p].bytes # 2
         /\ Stutter /\ Finish("inv:ModuleIntegrity(incomplete file moved to the module path)", e)
      \/ /\ e.ev = "writer" /\ CallWriter(e.p) /\ Finish(C(e.bytes_ok /\ e.path_ok, "module_writer-arguments"), e)
-     \/ /\ e.ev = "load" /\ LoadFrom(e.p, Probing \cup {"Load"}) /\ Finish(C(e.from = mod.from /\ e.magic = mod.magic, "load-content"), e)
+     \/ /\ e.ev = "load" /\ LoadFrom(e.p, TProbing \cup {"Load"}) /\ Finish(C(e.from = mod.from /\ e.magic = mod.magic, "load-content"), e)
      \/ /\ e.ev = "done" /\ Done(e.p) /\ Finish(C(e.rendered = loc[e.p].loaded.from, "done-rendered"), e)
      \/ /\ e.ev = "crash" /\ Crash(e.p) /\ (e.mid <=> (pc[e.p] = "Write" /\ tmp'[e.p].bytes = 1)) /\ Finish("", e)
      \/ /\ e.ev = "fsop" /\ pc[e.p] # "idle" /\ Stutter /\ Finish("", e)
